@@ -179,20 +179,34 @@ def _veq(a, b):
 
 
 class SymSet:
+    """set with symbolic element equality.  De-duplication (which forks on equality) is deferred until the
+    number or the sequence of elements is observed; membership and intersection do not need it."""
+
     def __init__(self, interp, items=()):
         self.interp = interp
-        self.items = []
+        self.raw = []
+        self._dedup = None
         for x in items:
             self.add(x)
 
     def _same(self, x, y):
         return x is y or bool(self.interp.truth(self.interp.eq(x, y)))
 
+    @property
+    def items(self):
+        if self._dedup is None:
+            out = []
+            for x in self.raw:
+                if not any(self._same(y, x) for y in out):
+                    out.append(x)
+            self._dedup = out
+        return self._dedup
+
     def add(self, x):
-        for y in self.items:
-            if self._same(y, x):
-                return
-        self.items.append(x)
+        if any(y is x for y in self.raw):
+            return
+        self.raw.append(x)
+        self._dedup = None
 
     def update(self, xs):
         for x in xs:
@@ -205,12 +219,12 @@ class SymSet:
         return len(self.items)
 
     def __bool__(self):
-        return bool(self.items)
+        return bool(self.raw)
 
     def __and__(self, o):
         out = SymSet(self.interp)
-        ys = o.items if isinstance(o, SymSet) else list(o)
-        for x in self.items:
+        ys = o.raw if isinstance(o, SymSet) else list(o)
+        for x in self.raw:
             for y in ys:
                 if self._same(x, y):
                     out.add(x)
@@ -220,7 +234,7 @@ class SymSet:
     __rand__ = __and__
 
     def sym_contains(self, x):
-        return any(self._same(y, x) for y in self.items)
+        return any(self._same(y, x) for y in self.raw)
 
 
 class SymDD:
